@@ -44,6 +44,9 @@ def oracle_cow(run):
     wm = None
     call = {}         # tid -> current call name
     cnt = {}          # tid -> per-call counters
+    lastmod = {}      # atomic cell -> (sequence number, tid) of its last modification
+    lastseen = {}     # (tid, cell) -> sequence number of the thread's last operation on the cell
+    seq = [0]
     lo = {}           # tid -> `returned` index at its call lockShared
     depth = {0: 0}
     fin_seen = False
@@ -154,7 +157,15 @@ def oracle_cow(run):
             if call.get(tid) == "lockShared":
                 return "blocking operation '%s' inside a lock_shared form" % " ".join(t)
         elif k in ("ald", "ast", "rmw", "axc", "cas"):
-            if tid in cnt and call.get(tid):
+            # failed compare-exchanges caused by other READERS (or spurious) are retries, not waiting for a writer
+            failed_cas = k == "cas" and len(t) > 5 and t[5] == "0"
+            justified = failed_cas and ("spurious" in t or (lastmod.get(t[1], (-1, None))[0] > lastseen.get((tid, t[1]), -1)
+                                                          and lastmod[t[1]][1] != wm))
+            if k in ("ast", "rmw", "axc") or (k == "cas" and not failed_cas):
+                lastmod[t[1]] = (seq[0], tid)
+            lastseen[(tid, t[1])] = seq[0]
+            seq[0] += 1
+            if tid in cnt and call.get(tid) and not justified:
                 cnt[tid]["prim"] += 1
         elif k == "pcp":
             new, src, c0 = _v(t[1]), _v(t[2]), int(t[3])
